@@ -469,3 +469,36 @@ package transaction
 //@   opaque-callee cleanup prewriteMutations checkSchemaOnAssertionFail stripNoNeedCommitKeys GetTimestampForCommit checkSchemaValid fillCommitTSLagDetails commitFlushedMutations checkOnePC checkAsyncCommit calculateMaxCommitTS needLinearizability getDetail pipelinedCancel primary shouldWriteBinlog spawn NewBackofferWithVars IsExpired GetOracle GetTimestampWithRetry updateMaxCommitTs getTimestampWithRetry GetMemBuffer Prewrite Skipped GetError
 //@   at call(commitTxn) assert above: c.commitTS > c.startTS
 //@   at call(spawn) assert aboveasync: c.commitTS > c.startTS
+
+// ---- C06: the rollback of prewritten keys after a failed commit (cleanup) ----------------------------------------------
+// Ghost: cuDone - a cleanupMutations call returned without error (set by its assumed contract, as for the pessimistic
+// rollback above). One batch of the cleanup names the transaction's start timestamp and goes to the batch's region; it is
+// reported done only when the store answered without region error and without key error, or - after a region error - the
+// regrouped cleanup succeeded.
+//@ ghost field twoPhaseCommitter.cuDone bool
+//@ ghost field twoPhaseCommitter.cuTried bool
+//@ func (*twoPhaseCommitter) cleanupMutations
+//@   trusted
+//@   modifies-also twoPhaseCommitter.cuDone of c, twoPhaseCommitter.cuTried of c
+//@   ensures c.cuTried && (result == nil ==> c.cuDone) && (result != nil ==> c.cuDone == old(c.cuDone))
+//@ func (actionCleanup) handleSingleBatch
+//@   prop C06
+//@   may-panic
+//@   opaque-callee GetKeys GetRegionError Backoff Len GetID GetRequestSource
+//@   requires fresh: !c.cuDone
+//@   at call(SendReq) assert request: arg_regionID == batch.region && arg_req.Type == tikvrpc.CmdBatchRollback && arg_req.Req.(*kvrpcpb.BatchRollbackRequest).StartVersion == c.startTS
+//@   at return assert answered: result == nil ==> (regionErr == nil && keyErr == nil) || c.cuDone
+
+// The background clean-up of a failed commit rolls back ALL mutations of the committer: the prewritten locks of a two-phase /
+// async-commit attempt through the cleanup action, the pessimistic locks of a failed one-phase attempt of a pessimistic
+// transaction through the pessimistic rollback, and the whole flushed range of a pipelined transaction with the rollback
+// outcome - each under a context derived from the store's (not the caller's, which is usually already cancelled).
+//@ func (*twoPhaseCommitter) cleanup$1
+//@   prop C06
+//@   bytes: key
+//@   may-panic
+//@   opaque-callee broadcastToAllStores NewBackofferWithVars Done
+//@   at call(cleanupMutations) assert all: arg_mutations.(*memBufferMutations) == c.mutations && !c.isOnePC()
+//@   at call(pessimisticRollbackMutations) assert allpess: arg_mutations.(*memBufferMutations) == c.mutations && c.isPessimistic
+//@   at call(resolveFlushedLocks) assert range: !arg_commit && arg_start == c.pipelinedCommitInfo.pipelinedStart && arg_end == c.pipelinedCommitInfo.pipelinedEnd
+//@   at return assert done: !c.txn.isPipelined && (c.useOnePC == 0 || c.isPessimistic) ==> c.cuTried || c.rbTried
